@@ -23,7 +23,10 @@ CHECKS = {
         level_text="Stateful property testing of one producing node (real chain, consensus, supervisor, pillar worker): generated "
                    "histories of transfers, receives, ABI-typed / re-encoded / raw calls to every embedded contract, model-guided "
                    "valid calls and momentums; after every step an independent scanner walks all account chains and recomputes "
-                   "supply = balances + in-flight for every token. Exploration: histories are sampled.",
+                   "supply = balances + in-flight for every token. Histories include bridge worlds (wraps of a bridge-owned token burn it, redeems "
+                   "mint it), momentums of a second producer that knew nothing of the node's pool, and (TestC01Reorg) reorganisations after "
+                   "which the identity must hold on the reorganised node - whatever its pool kept, whatever it produces next - as on a node "
+                   "that only saw the adopted branch. Exploration: histories are sampled.",
         level_note="Trusts the scanner (raw key-space walk + block replay of amounts) and the token table read from the token "
                    "contract's storage. Genesis is harness-built (consistent by construction).",
         technique="stateful property-based testing (rapid) with a whole-ledger invariant recomputed by an independent scanner",
@@ -125,7 +128,9 @@ CHECKS = {
                    "node must have stayed on its own chain unchanged, unless the verified part before the fault is itself "
                    "strictly longer than the node's branch (then it is exactly on that part). Followers also hold pooled "
                    "blocks acknowledging their own branch; after an adoption every pooled block must acknowledge a "
-                   "momentum of the adopted chain. The window edge (fork depth 30 / 31) is generated exactly.",
+                   "momentum of the adopted chain. The window edge (fork depth 30 / 31) is generated exactly. After a faulted "
+                   "fork delivery that the node answered by staying, the SAME node is handed the chain again with a bad signature "
+                   "on an element that had verified and been rolled back in the first delivery.",
         technique="fault injection enumerated over positions x kinds on generated batches (rapid), reference decision from the statement",
         rule="case = world + local chain + batch variants; evaluation unit = one faulted delivery; distinct non-trivial = distinct "
              "(variant, fault kind, position relative to first unknown element, batch length, fork depth) tuples plus distinct cases",
@@ -164,7 +169,11 @@ CHECKS = {
                    "totals, public key, signature incl. non-canonical S) and inside it are gossiped to a fresh copy of a "
                    "follower before the block's momentum arrives; afterwards the follower must accept the producer's momentum "
                    "and hold byte-identical logical store content to a follower that never saw the variant. Stored call data "
-                   "of every accepted contract call equals its canonical ABI repack. (c) thorough: native fuzzing of the three "
+                   "of every accepted contract call equals its canonical ABI repack; calls are also built outside the node "
+                   "with re-encoded call data (hashed and signed over those bytes) and delivered over the wire / JSON-RPC: an "
+                   "accepted one is stored with the bytes it was delivered with, every stored block hashes to its hash. A third "
+                   "route puts the variant inside the confirming momentum while the follower holds the original: whatever the "
+                   "answer, what it holds under the hash stays the producer's bytes. (c) thorough: native fuzzing of the three "
                    "decoders with decode/encode/decode stability as oracle.",
         level_note="Variants that need the signing key are out of scope by the statement. nil/empty slices and nil/zero amounts "
                    "are identified. Variants cover user blocks and pooled contract receives (and the fields of their batched "
@@ -369,7 +378,10 @@ CHECKS = {
                    "moves back; every CollectReward mints exactly the deposit recorded in the contract state just before it, to "
                    "the caller, and leaves nothing; deposit == credited - collected for every address; liquidity (before its "
                    "spork) issues exactly one mint pair per closed epoch. Finally a follower synced in batches with cold caches "
-                   "must hold identical credits and epoch statistics.",
+                   "must hold identical credits and epoch statistics. The emission schedule (ZNN / QSR per reward tick, "
+                   "shares per contract) is restated in the checker, not read from vm/constants; a reward tick lasts 2 epochs in "
+                   "these worlds so that the schedule is crossed and its end passed; the producer answers consensus queries in "
+                   "the middle of epochs, the follower is never asked; pillars are revoked inside their window.",
         level_note="Liquidity after its spork is covered by the bound and once-only clauses only (additional rewards need the "
                    "administrator key).",
         technique="stateful property-based testing (rapid) with storage-level reward accounting and a two-node differential",
